@@ -29,6 +29,11 @@ RECV_APIS = ["recv_keep", "recv_keep_with_info", "recv_measure", "recv_rsp", "re
 CANON = {"create:K": "create_keep", "create:M": "create_measure", "create:R": "create_rsp", "recv:K": "recv_keep", "recv:M": "recv_measure", "recv:R": "recv_rsp"}
 
 
+CREATE_FIELDS = ["remote_node_id", "purpose_id", "type", "number", "random_basis_local", "random_basis_remote", "minimum_fidelity", "time_unit", "max_time", "priority",
+                 "atomic", "consecutive", "probability_dist_local1", "probability_dist_local2", "probability_dist_remote1", "probability_dist_remote2",
+                 "rotation_X_local1", "rotation_Y_local", "rotation_X_local2", "rotation_X_remote1", "rotation_Y_remote", "rotation_X_remote2"]
+
+
 def tp_of(api: str) -> str:
     return "K" if api in ("create_keep", "create_keep_with_info", "recv_keep", "recv_keep_with_info", "recv_rsp", "recv_rsp_with_info", "create_context", "recv_context") else "M"
 
@@ -89,7 +94,7 @@ def st_case(draw):
             kw["sequential"] = True
     resp = []
     # (every field of a response is a 32-bit integer for the controller: large counters are as good as small ones)
-    base = draw(st.integers(1, 1000) | st.integers(1, 1000) | st.integers(1, 1000) | st.sampled_from([65500, 2**16, 2**20 + 5, 2**31 - 200]))
+    base = draw(st.integers(1, 1000) | st.integers(1, 1000) | st.integers(1, 1000) | st.sampled_from([65500, 2**16, 2**20 + 5, 2**31 - 200, 2**31 + 7, 3_000_000_000]))
     for i in range(number):
         resp.append(
             {
@@ -279,7 +284,9 @@ def check(case) -> Dict[str, Any]:
                 if (got0.value if hasattr(got0, "value") else got0) != (want0.value if hasattr(want0, "value") else want0) and not (fld == "time_unit" and before["kw"].get("max_time", 0) == 0):
                     raise Failure(f"request-field:{fld}:earlier-request", case, f"{before['api']} issued first: network stack received {fld}={got0!r}, the call asked for {want0!r}")
         rtype = {"create_keep": "K", "create_keep_with_info": "K", "create_measure": "M", "create_rsp": "R", "create_context": "K"}[api]
-        want = dict(zip(LinkLayerCreate._fields, LinkLayerCreate.__new__.__defaults__))
+        # the request type's fields and documented defaults, as published (frozen here: the oracle does not ask the code)
+        want = {f_: 0 for f_ in CREATE_FIELDS}
+        want.update(type=RequestType.K, number=1, random_basis_local=RandomBasis.NONE, random_basis_remote=RandomBasis.NONE)
         want.update(remote_node_id=remote_id, purpose_id=purpose, type=RequestType[rtype], number=number)
         mt = kw.get("max_time", 0)
         if mt != 0:
@@ -301,7 +308,7 @@ def check(case) -> Dict[str, Any]:
         def val(x):
             return x.value if hasattr(x, "value") else x
 
-        for fld in LinkLayerCreate._fields:
+        for fld in CREATE_FIELDS:
             got = getattr(req, fld)
             if val(got) != val(want[fld]):
                 raise Failure(f"request-field:{fld}", case, f"{api}: network stack received {fld}={got!r}, the call asked for {want[fld]!r}")
